@@ -8,19 +8,20 @@ let run inp obs : string option * string option =
     let spec =
       if kind = "expired" then
         (* a legal, very short timeout may pass before the handler can be called: then the
-           client must be told DEADLINE_EXCEEDED (4); "short" = below 100 ms *)
+           client must be told DEADLINE_EXCEEDED (4); "short" = below 100 ms (below 500 ms when a backend
+           on loopback has to be reached first, variant p) *)
         (match Timeout.decode_timeout s with
          | None -> Some "malformed grpc-timeout was not refused (answered 200)"
-         | Some ns -> if int_of_z ns >= 100_000_000 then Some "handler not invoked although the deadline was far away"
+         | Some ns -> if int_of_z ns >= (if variant = ["p"] then 500_000_000 else 100_000_000) then Some "handler not invoked although the deadline was far away"
                       else if _code = "4" then None
                       else Some (Printf.sprintf "deadline expired before the handler ran but grpc-status is %s, not 4" _code))
       else if kind = "nodeadline" then
         (match Timeout.decode_timeout s with None -> Some "handler invoked for a malformed grpc-timeout" | Some _ -> Some "handler ran without a deadline")
       else if Timeout.timeout_obs_ok s refused (z_of_string lo) (z_of_string hi) then
         (* variant x: the upload arrives 400 ms after the request; a deadline counted from the end of the upload lies 400 ms
-           late (200 ms of slack for the scheduler) *)
+           late (300 ms of slack for the scheduler) *)
         (match variant, Timeout.decode_timeout s with
-         | ["x"], Some ns when kind = "ok" && int_of_z ns < 1_000_000_000_000_000 && int_of_string hi - int_of_z ns > 200_000_000 ->
+         | ["x"], Some ns when kind = "ok" && int_of_z ns < 1_000_000_000_000_000 && int_of_string hi - int_of_z ns > 300_000_000 ->
            Some (Printf.sprintf "grpc-timeout %S on a gRPC-web-text request whose body arrived 400 ms after the request: the handler's deadline lies %d ms after receipt + T -- it was counted from the end of the upload"
                    (bytes_str s) ((int_of_string hi - int_of_z ns) / 1_000_000))
          | _ -> None)
